@@ -268,3 +268,48 @@ COST_THOROUGH = [
     CostCfg("TC12", "greater", "std", "amc"),
     CostCfg("TC8", "less", "v", compiler="clang++-14"),
 ]
+
+
+class SetFaultCfg:
+    """kind: 'flat' (under = underlying vector) or 'small' (under = 'set'|'flat', n = inline capacity)"""
+
+    def __init__(self, kind, elem, cmp_, cmp2, under, n=0, alloc="exact", std="c++17", compiler="g++"):
+        self.kind, self.elem, self.cmp, self.cmp2, self.under, self.n, self.alloc, self.std, self.compiler = kind, elem, cmp_, cmp2, under, n, alloc, std, compiler
+        self.name = "sf_%s_%s_%s_%s_%s_%d_%s_%s_%s" % (kind, elem, cmp_, cmp2, under, n, alloc, std.replace("c++", "cxx"), "gcc" if compiler == "g++" else "clang")
+
+    def source(self):
+        e = vec.ELEMS[self.elem]
+        if self.kind == "flat":
+            f = FSCfg(self.elem, self.cmp, self.cmp2, self.under, self.alloc)
+            src = f.source().replace(f.name, self.name)
+            src = src.replace('#include "flatset_history_main.hpp"',
+                              'using SetT = amc::FlatSet<Elem, Cmp, VecT::allocator_type, VecT>;\nusing SetT2 = amc::FlatSet<Elem, Cmp2, VecT::allocator_type, VecT>;\n'
+                              '#define VF_SET_N 0\n#include "set_fault_main.hpp"')
+            return src
+        s = SSCfg(self.elem, self.n, self.cmp, self.n + 1, self.cmp2, self.under, self.alloc)
+        src = s.source().replace(s.name, self.name)
+        src = src.replace("using SetA =", "using SetT =").replace("using SetB =", "using SetT2 =")
+        src = src.replace('#include "smallset_main.hpp"', '#define VF_SET_N %d\n#include "set_fault_main.hpp"' % self.n)
+        return src
+
+    def spec(self):
+        return {"name": self.name, "source": self.source(), "std": self.std, "compiler": self.compiler, "extra": ["-DAMC_NONSTD_FEATURES"]}
+
+
+SETFAULT_QUICK = [
+    SetFaultCfg("flat", "NTR", "less", "greater", "v", alloc="basic"),
+    SetFaultCfg("flat", "TR", "coarse", "less", "s4", alloc="exact"),
+    SetFaultCfg("flat", "NTR", "stateful", "less", "f64"),
+    SetFaultCfg("small", "NTR", "less", "greater", "set", 3, "exact"),
+    SetFaultCfg("small", "TR", "less", "coarse", "set", 2, "basic"),
+    SetFaultCfg("small", "NTR", "greater", "less", "flat", 3, "basic"),
+    SetFaultCfg("small", "TR", "stateful", "less", "flat", 4, "exact"),
+]
+SETFAULT_THOROUGH = [
+    SetFaultCfg("flat", "TR", "less", "greater", "std", alloc="exact"),
+    SetFaultCfg("flat", "NTR", "greater", "coarse", "s2", alloc="realloc"),
+    SetFaultCfg("small", "NTR", "coarse", "less", "set", 1, "exact"),
+    SetFaultCfg("small", "NTR", "less", "less", "flat", 8, "exact"),
+    SetFaultCfg("small", "TR", "less", "greater", "set", 4, "exact", compiler="clang++-14"),
+    SetFaultCfg("flat", "NTR", "less", "greater", "v", alloc="basic", std="c++20"),
+]
